@@ -164,7 +164,9 @@ Definition vpanic (m : vm) (k : panic_kind) : vm * vres := (m, VPanic k).
 Definition jump_to (p : prog) (m : vm) (target : N) : vm :=
   m <| pc := target |> <| rest := skipn (N.to_nat target) (g_code p) |>.
 
-Definition get_const (p : prog) (i : N) : option value := nth_opt (g_consts p) (N.to_nat i).
+(* the index is compared before it is turned into a nat: a hostile operand costs nothing *)
+Definition get_const (p : prog) (i : N) : option value :=
+  if i <? nlen (g_consts p) then nth_opt (g_consts p) (N.to_nat i) else None.
 
 Definition matching_blocks (ty : bytes) (res : list value) : list value :=
   filter (fun b => match b with VBlock t _ _ => bytes_eqb t ty | _ => false end) (frev res).
